@@ -176,8 +176,9 @@ public:
   const_pointer data() const { return data_; }
 
   void push_back(const _Tp& value) {
+    _Tp tmp = value; // value may refer into this array; resize can move it
     resize(size_ + 1);
-    data_[size_ - 1] = value;
+    data_[size_ - 1] = tmp;
   }
 
   template <class InputIterator>
